@@ -250,7 +250,19 @@ func run(c *runner.Ctx) {
 		}
 		return fmt.Errorf("%s", s)
 	}})
+	for _, fk := range []carrier.Kind{carrier.StructFirstLocalFn, carrier.StructFirstOverride, carrier.StructFirstOtherTag, carrier.StructFirstNested} {
+		fk := fk
+		cars = append(cars, carrierFn{string(fk), anyV, func(v reflect.Value, rl string) error {
+			if !carrier.TagOK(rl) {
+				return tagRun(v, rl)
+			}
+			return viaCarrierFn(fk)(v, rl)
+		}})
+	}
 	cars = append(cars,
+		carrierFn{string(carrier.MapRMEdited), anyV, viaCarrierFn(carrier.MapRMEdited)},
+		carrierFn{string(carrier.StructRMEdited), anyV, viaCarrierFn(carrier.StructRMEdited)},
+		carrierFn{string(carrier.UrlRMEdited), strEnc, viaCarrierFn(carrier.UrlRMEdited)},
 		carrierFn{string(carrier.VarWrappers), anyV, viaCarrierFn(carrier.VarWrappers)},
 		carrierFn{string(carrier.MapWrappers), anyV, viaCarrierFn(carrier.MapWrappers)},
 		carrierFn{string(carrier.UrlWrappers), strEnc, viaCarrierFn(carrier.UrlWrappers)},
